@@ -403,8 +403,10 @@ impl<'r> Eng<'r> {
         let store = self.store.as_ref().unwrap();
         let bytes = ev.bytes.clone();
         let res = catch(|| {
-            let e = unsafe { Event::delineate(&bytes).unwrap() };
-            store.store_event(e)
+            // (an OwnedEvent wraps the bytes directly: the harness does not go through the library's
+            // own delineation to hand an event in)
+            let e = pocket_types::OwnedEvent(bytes.clone());
+            store.store_event(&e)
         });
         let out = match res {
             Ok(Ok(off)) => Outcome::Ok(off),
